@@ -824,3 +824,35 @@ def replay_h_pipe(detail):
 
 KINDS['h_laws'] = replay_h_laws
 KINDS['h_pipe'] = replay_h_pipe
+
+
+def replay_h_t1(detail):
+    """token ordering on real strings with the real WhitespaceTokenizer"""
+    repo.load()
+    from py_stringmatching import WhitespaceTokenizer
+    to = repo.mod('utils.token_ordering')
+    cs = detail['scenario']
+    tok = WhitespaceTokenizer(return_set=True)
+    L = [tuple(r) for r in cs['L']['rows']]
+    R = [tuple(r) for r in cs['R']['rows']]
+    ordering = to.gen_token_ordering_for_tables([L, R], [1, 1], tok)
+    lines = ['rows: %r %r' % ([r[1] for r in L], [r[1] for r in R]), 'ordering: %r' % (ordering,)]
+    bad = len(set(ordering.values())) != len(ordering)
+    freq = {}
+    for r in L + R:
+        toks = tok.tokenize(r[1])
+        for t in toks:
+            freq[t] = freq.get(t, 0) + 1
+        o = to.order_using_token_ordering(toks, ordering)
+        if len(o) != len(toks) or any(not (a < b) for a, b in zip(o, o[1:])):
+            lines.append('row %r ordered as %r' % (r[1], o))
+            bad = True
+    want = sorted(freq, key=lambda t: (freq[t], t))
+    got = sorted(ordering, key=lambda t: ordering[t])
+    if want != got:
+        lines.append('rank order %r, expected (frequency, token) order %r' % (got, want))
+        bad = True
+    return bad, '\n'.join(lines)
+
+
+KINDS['h_t1'] = replay_h_t1
